@@ -122,7 +122,18 @@ fn run_n<const N: usize>(script: &Script, keep: bool) -> Outcome {
         panicked: false,
     };
     for (i, st) in script.steps.iter().enumerate() {
-        ex.step(i, st);
+        let r = std::panic::catch_unwind(std::panic::AssertUnwindSafe(|| ex.step(i, st)));
+        if r.is_err() {
+            let (c, m) = crate::exec::classify_stray_panic(cls::ZST | cls::PANIC_SPEC);
+            ex.cur = i;
+            ex.fail(c, m);
+            // the buffer taken out of its slot during the step is gone: do not touch it again
+            for b in 0..2 {
+                if ex.bufs[b].is_none() {
+                    ex.bufs[b] = Some(Box::new(CircularBuffer::new()));
+                }
+            }
+        }
         if ex.fail.is_some() {
             break;
         }
